@@ -85,47 +85,9 @@ func (n *c01Net) totalSteps() int {
 	return t
 }
 
-func c01Run(r *vg.Rand, k int) (term string, descr string, nontrivial bool, decided int, kind string) {
-	nv := 4 + r.Intn(3)
-	powers := make([]int64, nv)
-	for i := range powers {
-		powers[i] = 10
-		if r.Chance(30) {
-			powers[i] = 5 + int64(r.Intn(15))
-		}
-	}
-	state, pvs := c02Genesis(r, nv, powers)
-	total := state.Validators.TotalVotingPower()
-	// choose faulty validators with strictly less than one third of the power
-	net := &c01Net{kinds: map[string]int{}, inbox: map[*c02Harness][]msgInfo{}}
-	var fpow int64
-	for _, i := range r.Perm(nv) {
-		p := state.Validators.Validators[i].VotingPower
-		if 3*(fpow+p) < total && r.Chance(70) {
-			net.faulty = append(net.faulty, i)
-			fpow += p
-		}
-	}
-	isFaulty := map[int]bool{}
-	for _, i := range net.faulty {
-		isFaulty[i] = true
-	}
-	skip := r.Bool()
-	var shared *c02Harness
-	for i := 0; i < nv; i++ {
-		if isFaulty[i] {
-			continue
-		}
-		h := c02NewNode(r, state, pvs, i, skip, shared)
-		if shared == nil {
-			shared = h
-		}
-		hh := h
-		h.onOwn = func(mi msgInfo) { net.publish(hh, mi) }
-		h.hardCap = 100000
-		net.nodes = append(net.nodes, h)
-	}
-	maxSteps := 900
+// c01Async runs the adversarial asynchronous scheduler until the nodes have handled maxSteps
+// inputs in total.
+func c01Async(r *vg.Rand, net *c01Net, pvs []types.MockPV, maxSteps, lossPct, earlyTimeoutPct, byzPct int) {
 	// a Byzantine helper: any node's tables can be used to build terms
 	byz := func(h *c02Harness) {
 		if len(net.faulty) == 0 {
@@ -208,12 +170,10 @@ func c01Run(r *vg.Rand, k int) (term string, descr string, nontrivial bool, deci
 		}
 	}
 	deliver := func(h *c02Harness, mi msgInfo) {
+		h.got = append(h.got, mi)
 		t, d := h.inputTerm(mi)
 		h.deliver(t, d, func() { h.cs.handleMsg(mi) })
 	}
-	lossPct := []int{0, 0, 3, 10, 25}[r.Intn(5)]
-	earlyTimeoutPct := []int{0, 0, 1, 3, 8}[r.Intn(5)] // timeouts firing although messages are in flight
-	byzPct := []int{1, 3, 6}[r.Intn(3)]
 	for net.totalSteps() < maxSteps {
 		alive := 0
 		for _, h := range net.nodes {
@@ -286,6 +246,53 @@ func c01Run(r *vg.Rand, k int) (term string, descr string, nontrivial bool, deci
 			net.kinds["deliver/next"]++
 		}
 	}
+}
+
+func c01Run(r *vg.Rand, k int) (term string, descr string, nontrivial bool, decided int, kind string) {
+	nv := 4 + r.Intn(3)
+	powers := make([]int64, nv)
+	for i := range powers {
+		powers[i] = 10
+		if r.Chance(30) {
+			powers[i] = 5 + int64(r.Intn(15))
+		}
+	}
+	state, pvs := c02Genesis(r, nv, powers)
+	total := state.Validators.TotalVotingPower()
+	// choose faulty validators with strictly less than one third of the power
+	net := &c01Net{kinds: map[string]int{}, inbox: map[*c02Harness][]msgInfo{}}
+	var fpow int64
+	for _, i := range r.Perm(nv) {
+		p := state.Validators.Validators[i].VotingPower
+		if 3*(fpow+p) < total && r.Chance(70) {
+			net.faulty = append(net.faulty, i)
+			fpow += p
+		}
+	}
+	isFaulty := map[int]bool{}
+	for _, i := range net.faulty {
+		isFaulty[i] = true
+	}
+	skip := r.Bool()
+	var shared *c02Harness
+	for i := 0; i < nv; i++ {
+		if isFaulty[i] {
+			continue
+		}
+		h := c02NewNode(r, state, pvs, i, skip, shared)
+		if shared == nil {
+			shared = h
+		}
+		hh := h
+		h.onOwn = func(mi msgInfo) { net.publish(hh, mi) }
+		h.hardCap = 100000
+		net.nodes = append(net.nodes, h)
+	}
+	maxSteps := 900
+	lossPct := []int{0, 0, 3, 10, 25}[r.Intn(5)]
+	earlyTimeoutPct := []int{0, 0, 1, 3, 8}[r.Intn(5)] // timeouts firing although messages are in flight
+	byzPct := []int{1, 3, 6}[r.Intn(3)]
+	c01Async(r, net, pvs, maxSteps, lossPct, earlyTimeoutPct, byzPct)
 	// the Coq term: validator set, flags, proposer table, one trace per correct node
 	var vals []string
 	for i, v := range state.Validators.Validators {
@@ -353,4 +360,220 @@ func TestVerifC01Network(t *testing.T) {
 	if err := cs.Write(); err != nil {
 		t.Fatal(err)
 	}
+}
+
+// ---------------------------------------------------------------- C03: a synchronous suffix
+
+// c03Sync continues a network synchronously: every message reaches every correct node before
+// any timeout fires (per-node inboxes are drained completely, without loss, before the node's
+// latest timeout is fired), while the faulty validators keep acting.  It stops when every
+// correct node has decided height h0 or after maxRounds rounds.
+func c03Sync(r *vg.Rand, net *c01Net, pvs []types.MockPV, h0 int64, maxRounds int32, byzPct int) {
+	deliver := func(h *c02Harness, mi msgInfo) {
+		h.got = append(h.got, mi)
+		t, d := h.inputTerm(mi)
+		h.deliver(t, d, func() { h.cs.handleMsg(mi) })
+	}
+	allDecided := func() bool {
+		for _, h := range net.nodes {
+			if !h.panicked && h.cs.Height <= h0 {
+				return false
+			}
+		}
+		return true
+	}
+	startRound := int32(0)
+	for _, h := range net.nodes {
+		if h.cs.Height == h0 && h.cs.Round > startRound {
+			startRound = h.cs.Round
+		}
+	}
+	for guard := 0; guard < 4000 && !allDecided(); guard++ {
+		// 1. drain: deliver everything usable to everybody until nothing usable is left
+		progress := true
+		for progress {
+			progress = false
+			for _, h := range net.nodes {
+				if h.panicked || h.cs.Height > h0 { // done: it has decided h0
+					continue
+				}
+				for h.cs.Height <= h0 && len(h.steps) < 3000 {
+					usable := -1
+					for i, mi := range net.inbox[h] {
+						if c01Usable(mi, h.cs.Height, h.cs.Round) {
+							usable = i
+							break
+						}
+					}
+					if usable < 0 {
+						break
+					}
+					mi := net.inbox[h][usable]
+					net.inbox[h] = append(net.inbox[h][:usable:usable], net.inbox[h][usable+1:]...)
+					deliver(h, mi)
+					progress = true
+				}
+			}
+		}
+		if allDecided() {
+			break
+		}
+		// 2. the faulty validators act (their messages are delivered in the next drain)
+		if len(net.faulty) > 0 && r.Chance(byzPct) {
+			h := net.nodes[r.Intn(len(net.nodes))]
+			f := net.faulty[r.Intn(len(net.faulty))]
+			ty := tmproto.PrevoteType
+			if r.Bool() {
+				ty = tmproto.PrecommitType
+			}
+			v := h.mkVote(r, f, ty, h.cs.Height, h.cs.Round, h.pickBlockID(r))
+			net.publish(nil, msgInfo{&VoteMessage{v}, "p9"})
+			net.kinds["sync/byz-vote"]++
+			continue
+		}
+		// 3. nothing in flight: the node furthest behind fires its pending timeout
+		var pick *c02Harness
+		for _, h := range net.nodes {
+			if h.panicked || h.cs.Height > h0 || len(h.ticker.scheduled) == 0 {
+				continue
+			}
+			if pick == nil || h.cs.Height < pick.cs.Height ||
+				(h.cs.Height == pick.cs.Height && (h.cs.Round < pick.cs.Round ||
+					(h.cs.Round == pick.cs.Round && h.cs.Step < pick.cs.Step))) {
+				pick = h
+			}
+		}
+		if pick == nil {
+			break
+		}
+		ti := pick.ticker.scheduled[len(pick.ticker.scheduled)-1]
+		pick.fire(ti, "sync/timeout")
+		net.kinds["sync/timeout"]++
+		tooFar := false
+		for _, h := range net.nodes {
+			if h.cs.Height == h0 && h.cs.Round > startRound+maxRounds {
+				tooFar = true
+			}
+		}
+		if tooFar {
+			break
+		}
+	}
+}
+
+func TestVerifC03Sync(t *testing.T) {
+	root := vg.NewRand(vg.Seed() ^ 0xc03)
+	cs := vg.NewCases("C03", "c03_sync", "TM.C03.Exec")
+	vg.ShardSize = 2
+	n := vg.Scale(40, 1200)
+	decidedAll := 0
+	for k := 0; k < n; k++ {
+		id := cs.NextID()
+		if !cs.Want(id) {
+			continue
+		}
+		r := root.Fork(uint64(k))
+		term, descr, ok, kind := c03Run(r)
+		if ok {
+			decidedAll++
+		}
+		cs.Add(id, kind, true, term, descr)
+	}
+	cs.Notes = append(cs.Notes, fmt.Sprintf("networks in which every correct node decided within the bound: %d of %d", decidedAll, n))
+	if err := cs.Write(); err != nil {
+		t.Fatal(err)
+	}
+}
+
+// c03Run: an adversarial asynchronous prefix (as in C01, equal powers so that the proposer
+// rotation is a plain round robin) followed by a synchronous suffix.
+func c03Run(r *vg.Rand) (term, descr string, allDecided bool, kind string) {
+	nv := 4 + r.Intn(3)
+	powers := make([]int64, nv)
+	for i := range powers {
+		powers[i] = 10
+	}
+	state, pvs := c02Genesis(r, nv, powers)
+	net := &c01Net{kinds: map[string]int{}, inbox: map[*c02Harness][]msgInfo{}}
+	nf := r.Intn((nv-1)/3 + 1) // 0 .. floor((n-1)/3) faulty validators of equal power
+	for _, i := range r.Perm(nv)[:nf] {
+		net.faulty = append(net.faulty, i)
+	}
+	isFaulty := map[int]bool{}
+	for _, i := range net.faulty {
+		isFaulty[i] = true
+	}
+	skip := r.Bool()
+	var shared *c02Harness
+	for i := 0; i < nv; i++ {
+		if isFaulty[i] {
+			continue
+		}
+		h := c02NewNode(r, state, pvs, i, skip, shared)
+		if shared == nil {
+			shared = h
+		}
+		hh := h
+		h.onOwn = func(mi msgInfo) { net.publish(hh, mi) }
+		h.hardCap = 100000
+		net.nodes = append(net.nodes, h)
+	}
+	// asynchronous prefix: lossy, early timeouts, split-brain and equivocation
+	prefix := 150 + r.Intn(450)
+	c01Async(r, net, pvs, prefix, []int{0, 10, 25}[r.Intn(3)], []int{3, 8, 15}[r.Intn(3)], 8)
+	// the synchronous suffix starts here
+	var marks []string
+	h0 := int64(0)
+	for _, h := range net.nodes {
+		if h.cs.Height > h0 {
+			h0 = h.cs.Height
+		}
+	}
+	for _, h := range net.nodes {
+		marks = append(marks, vg.Nat(len(h.steps)))
+	}
+	bound := int32(2*nv + 2)
+	// idealised gossip: whatever a correct node holds reaches every other correct node; what was
+	// lost or held back during the asynchronous prefix is sent again
+	for _, h := range net.nodes {
+		have := map[msgInfo]bool{}
+		for _, mi := range h.got {
+			have[mi] = true
+		}
+		for _, mi := range net.inbox[h] {
+			have[mi] = true
+		}
+		for _, mi := range net.pool {
+			if !have[mi] && c01Height(mi) >= h.cs.Height {
+				net.inbox[h] = append(net.inbox[h], mi)
+				have[mi] = true
+			}
+		}
+	}
+	c03Sync(r, net, pvs, h0, bound+2, 30)
+	allDecided = true
+	for _, h := range net.nodes {
+		if !h.panicked && h.cs.Height <= h0 {
+			allDecided = false
+		}
+	}
+	var vals []string
+	for i, v := range state.Validators.Validators {
+		vals = append(vals, vg.Tup(vg.N(uint64(i+1)), vg.Z(v.VotingPower)))
+	}
+	var props, nodes []string
+	for ht := int64(1); ht <= h0+2; ht++ {
+		if row, ok := shared.props[ht]; ok {
+			props = append(props, vg.Tup(vg.Z(ht), vg.ZL(row)))
+		}
+	}
+	var d strings.Builder
+	fmt.Fprintf(&d, "validators=%d equal powers, faulty=%v skipTimeoutCommit=%v async-prefix=%d inputs, sync from height %d, bound %d rounds;", nv, net.faulty, skip, prefix, h0, bound)
+	for i, h := range net.nodes {
+		nodes = append(nodes, vg.Tup(vg.Z(int64(h.me)), vg.L(h.steps)))
+		fmt.Fprintf(&d, " node %d: %d inputs (sync from #%s), final %d/%d/%d;", h.me, len(h.steps), marks[i], h.cs.Height, h.cs.Round, h.cs.Step)
+	}
+	term = vg.App("CSync", vg.L(vals), vg.B(skip), vg.Z(1), vg.L(props), vg.L(nodes), vg.L(marks), vg.Z(h0), vg.Z(int64(bound)))
+	kind = fmt.Sprintf("sync/n=%d/faulty=%d/alldecided=%v", nv, len(net.faulty), allDecided)
+	return term, d.String(), allDecided, kind
 }
